@@ -1,6 +1,6 @@
 # Shared machinery of the /verif checks: running TLC, running the Rust harness on the real code,
 # recording violations against known findings, writing evidence.
-import json, os, re, subprocess, sys, time, hashlib, shutil
+import json, os, re, subprocess, sys, time, hashlib, shutil, glob
 
 VERIF = os.path.dirname(os.path.dirname(os.path.abspath(__file__)))
 REPO = os.environ.get("VERIF_REPO", "/repo")
@@ -37,6 +37,34 @@ def cargo_env():
     return e
 
 
+def _tree_digest():
+    """content digest of the sources the build depends on (cargo decides staleness by modification time alone: a tree put in
+    place with OLDER time stamps than the last build - a restore, another scratch worktree - would otherwise be run stale)"""
+    import hashlib
+    h = hashlib.sha256(REPO.encode())
+    for root in ("src", "tests"):
+        for d, _, fs in sorted(os.walk(os.path.join(REPO, root))):
+            for f in sorted(fs):
+                fp = os.path.join(d, f)
+                h.update(fp.encode()); h.update(open(fp, "rb").read())
+    for f in ("Cargo.toml", "Cargo.lock", "build.rs"):
+        fp = os.path.join(REPO, f)
+        if os.path.exists(fp):
+            h.update(open(fp, "rb").read())
+    return h.hexdigest()
+
+
+def _force_if_changed(target_dir):
+    """forget cargo's fingerprints of the crate under test when its sources are not those of the last build into target_dir"""
+    stamp = os.path.join(target_dir, "verif-tree-digest")
+    dig = _tree_digest()
+    old = open(stamp).read() if os.path.exists(stamp) else None
+    if old != dig:
+        for fp in glob.glob(os.path.join(target_dir, "debug", ".fingerprint", "ruschm-*")):
+            shutil.rmtree(fp, ignore_errors=True)
+    return stamp, dig
+
+
 def build_harness():
     if _built.get("harness"):
         return _built["harness"]
@@ -58,10 +86,12 @@ def build_harness():
     else:
         cwd = HARNESS_DIR
         binp = HARNESS_BIN
+    stamp, dig = _force_if_changed(os.path.join(cwd, "target"))
     p = subprocess.run(["cargo", "build", "--offline", "--quiet"], cwd=cwd, env=cargo_env(),
                        stdout=subprocess.PIPE, stderr=subprocess.STDOUT, text=True)
     if p.returncode != 0:
         raise ToolError("harness build failed:\n" + p.stdout[-4000:])
+    open(stamp, "w").write(dig)
     _built["harness"] = binp
     log("[build] harness built from %s in %.1fs" % (REPO, time.time() - t))
     return binp
@@ -73,11 +103,14 @@ def build_binary():
         return _built["bin"]
     t = time.time()
     tdir = os.path.join(HARNESS_DIR, "target", "bin") if REPO == "/repo" else os.path.join(WORK, "harness-alt", "target", "bin")
+    os.makedirs(tdir, exist_ok=True)
+    stamp, dig = _force_if_changed(tdir)
     p = subprocess.run(["cargo", "build", "--offline", "--quiet", "--manifest-path", os.path.join(REPO, "Cargo.toml"),
                         "--bin", "ruschm", "--target-dir", tdir], env=cargo_env(),
                        stdout=subprocess.PIPE, stderr=subprocess.STDOUT, text=True)
     if p.returncode != 0:
         raise ToolError("ruschm binary build failed:\n" + p.stdout[-4000:])
+    open(stamp, "w").write(dig)
     _built["bin"] = os.path.join(tdir, "debug", "ruschm")
     log("[build] ruschm binary built in %.1fs" % (time.time() - t))
     return _built["bin"]
